@@ -822,3 +822,24 @@ def _(c):
                                only_me_gets(S0, S1, me, [lambda fr: ack_frame(fr, msg), lambda fr: is_frame(
                                    fr, "pong", {"pong": FV.fjson(msg.val("ping").t)})])), ["C17"]
     yield from event_post(c)
+
+
+# ---------------------------------------------------------------- __init__ (the `connect` event, with onOpen)
+INIT_MOD = CONN_COMPS
+c = contract("server_websocket.WebSocketServer.__init__", cls="WebSocketServer", params={}, modifies=INIT_MOD,
+             tags=["C17", "C02", "C11"])
+
+
+@c.ensures
+def _(c):
+    S1 = c.post
+    me = c.self_ref
+    # a new connection is unbound, holds nothing and has used none of its once-only commands
+    yield "fresh_connection", And(
+        cf(S1, "_app")[me] == 0, cf(S1, "_side.isnone")[me], cf(S1, "_mailbox")[me] == 0, cf(S1, "_mailbox_id.isnone")[me],
+        cf(S1, "_nameplate_id.isnone")[me], Not(cf(S1, "_listening")[me]), Not(cf(S1, "_did_allocate")[me]),
+        Not(cf(S1, "_did_claim")[me]), Not(cf(S1, "_did_release")[me]), Not(cf(S1, "_did_open")[me]),
+        Not(cf(S1, "_did_close")[me])), ["C17"]
+    # nobody else's connection state moves
+    yield "others_untouched", conj([
+        FA([INT], lambda cn, k=k: Implies(cn != me, c.post.get_comp(k)[cn] == c.pre.get_comp(k)[cn])) for k in INIT_MOD]), ["C02"]
